@@ -331,6 +331,20 @@ fn run_decoder(run: &mut Run) {
                     run.violate("decoder.prefix", "waits-on-unknown-delimiter", format!("input {:02x?} cannot start a frame but the stack asks for more data", buf));
                     return;
                 }
+                // The decoder looks at nothing before it has six bytes (the shortest data
+                // telegram): until then "more data" for a header that is already inconsistent is
+                // tolerated (observation O7), and so is the late rejection of a function code or
+                // address the reference already refuses.  From six bytes on, a variable-length
+                // header whose two length bytes or two start delimiters disagree (there is no
+                // "announced length" then) must be rejected, not waited on.
+                if buf.len() >= 6 && buf[0] == wire::SD2 && (buf[1] != buf[2] || buf[3] != wire::SD2 || buf[1] < 3) {
+                    run.violate(
+                        "decoder.prefix",
+                        "waits-on-inconsistent-header",
+                        format!("input {:02x?} is not the prefix of any valid frame (the reference rejects the header) but the stack asks for more data", buf),
+                    );
+                    return;
+                }
                 run.stats.inc("probe.late_rejection");
             }
             (Dec::Bad, Dec::Ok(g, m)) => {
@@ -476,11 +490,16 @@ fn run_helpers(run: &mut Run) {
     let last_arrival = arrivals.last().map(|a| a.0).unwrap_or(end).max(end);
     let final_t = last_arrival + 6 * cfg.p_max_us + 100;
     let mut polls = 0u64;
+    // times of the polls that called a receive helper
+    let mut recv_polls: Vec<u64> = Vec::new();
     while t <= final_t {
         t += rng.range(cfg.p_min_us.max(1), cfg.p_max_us.max(1));
         run.now_us = t;
         polls += 1;
         let method = if t > last_arrival + 2 * cfg.p_max_us { 1 } else { rng.below(5) };
+        if method != 4 {
+            recv_polls.push(t);
+        }
         for k in 0..cfg.items.len() {
             if clean_start[k].is_none() && first_arrival[k] <= t {
                 // empty after everything that was sent before had arrived
@@ -703,6 +722,38 @@ fn run_helpers(run: &mut Run) {
             }
             // "arrives separately": on an empty buffer, and nothing is appended before it is complete
             let alone = k + 1 >= cfg.items.len() || bit_us_f(cfg.baud, u64::from(cfg.items[k + 1].gap_bits)) > 3 * cfg.p_max_us + 10;
+            // The same obligation, stated without looking at what the stack kept: the item before
+            // is junk that does not start like a telegram, arrived on an empty buffer, was seen whole
+            // by a receiving poll before this telegram's first byte - whatever the helper does with
+            // such junk, "the next telegram that arrives separately is received correctly".
+            let after_whole_junk = k >= 1 && {
+                let j = &cfg.items[k - 1];
+                let junk = !j.bytes.is_empty() && !matches!(j.bytes[0], 0x10 | 0x68 | 0xA2 | 0xDC | 0xE5) && j.bytes.len() <= 5;
+                let j_first = first_arrival[k - 1];
+                let j_last = prev_last_arrival[k];
+                junk
+                    && clean_start[k - 1] == Some(true)
+                    && first_arrival[k] > j_last
+                    && !recv_polls.iter().any(|t| *t >= j_first && *t < j_last)
+                    && recv_polls.iter().any(|t| *t >= j_last && *t < first_arrival[k])
+            };
+            if after_whole_junk && alone {
+                if let Some(f) = wire::decode_exact(&it.bytes) {
+                    if !delivered.iter().any(|d| same_frame(d, &f)) {
+                        run.violate(
+                            "stream.discard",
+                            "telegram-after-junk-lost",
+                            format!(
+                                "telegram {} arrived separately after the junk {:02x?} (seen whole by a receiving poll, on an empty buffer) but was never delivered",
+                                f.short(),
+                                cfg.items[k - 1].bytes
+                            ),
+                        );
+                        return;
+                    }
+                    run.stats.inc("probe.clean_telegram_after_junk_delivered");
+                }
+            }
             if clean_start[k] == Some(true) && alone {
                 let f = wire::decode_exact(&it.bytes);
                 if let Some(f) = f {
